@@ -614,6 +614,7 @@ func (r *collection) addService(service any, lifetime Lifetime, opts ...AddOptio
 		}
 
 		// Register each field as a separate service that points to the same constructor
+		outputs := make([]*Descriptor, 0, len(descriptor.resultFields))
 		for _, field := range descriptor.resultFields {
 			// Create a descriptor for each field type
 			fieldDescriptor := &Descriptor{
@@ -629,6 +630,7 @@ func (r *collection) addService(service any, lifetime Lifetime, opts ...AddOptio
 				isFunc:          descriptor.isFunc,
 				isResultObject:  true,
 				resultFields:    descriptor.resultFields,
+				resultField:     field.Name,
 				isParamObject:   descriptor.isParamObject,
 				paramFields:     descriptor.paramFields,
 			}
@@ -641,6 +643,12 @@ func (r *collection) addService(service any, lifetime Lifetime, opts ...AddOptio
 					Cause:       err,
 				}
 			}
+
+			outputs = append(outputs, fieldDescriptor)
+		}
+
+		for _, output := range outputs {
+			output.outputs = outputs
 		}
 
 		// Don't register the result object type itself
@@ -659,6 +667,7 @@ func (r *collection) addService(service any, lifetime Lifetime, opts ...AddOptio
 
 		// If we have multiple non-error returns, register each as a separate service
 		if len(nonErrorReturns) > 1 {
+			outputs := make([]*Descriptor, 0, len(nonErrorReturns))
 			for i, ret := range nonErrorReturns {
 				// Create a descriptor for each return type
 				typeDescriptor := &Descriptor{
@@ -692,6 +701,12 @@ func (r *collection) addService(service any, lifetime Lifetime, opts ...AddOptio
 						Cause:       err,
 					}
 				}
+
+				outputs = append(outputs, typeDescriptor)
+			}
+
+			for _, output := range outputs {
+				output.outputs = outputs
 			}
 			return nil
 		}
